@@ -97,6 +97,67 @@ def jax_vi(seed, sample_mode, n_samples, configs):
     return out
 
 
+# ---- execution strategies of the samplers under every form of the solver options ------------------
+
+CG_FORMS = {"absdelta": dict(absdelta=1e-20, maxiter=60), "resnorm": dict(resnorm=1e-11, maxiter=60),
+            "both": dict(absdelta=1e-20, resnorm=1e-11, maxiter=60), "neither": dict(maxiter=60)}
+NL_FORMS = {"xtol": dict(xtol=1e-10, maxiter=8), "absdelta": dict(absdelta=1e-14, maxiter=8),
+            "both": dict(xtol=1e-10, absdelta=1e-14, maxiter=8), "neither": dict(maxiter=8)}
+
+
+def jax_strategy(seed, entries):
+    """Sampling step of OptimizeVI (draw_samples) in isolation.  An entry is
+    [kind, form, variants]; kind 'lin': linear samples with cg_kwargs = CG_FORMS[form]; kind 'nl':
+    non-linear samples with minimize_kwargs = NL_FORMS[form] (tight CG).  A variant is
+    [linear_minimizer_jit, nonlinear_minimizer_jit, residual_map, jit]; jit-ted minimisers use
+    static_cg / _static_newton_cg, eager ones cg / _newton_cg (the pairs NIFTy offers)."""
+    import logging
+    import warnings
+
+    import jax
+    import jax.numpy as jnp
+    from jax import random
+    from jax.tree_util import tree_leaves, tree_map
+    import nifty.re as jft
+    jft.logger.setLevel(logging.CRITICAL)
+    warnings.filterwarnings("ignore")
+    k1, k2, k3, k4 = random.split(random.PRNGKey(1 + seed), 4)
+    n, nd = 24, 16
+    R = random.normal(k1, (nd, n)) / 6.0
+
+    def fwd(x):
+        return R @ jnp.exp(0.3 * x["a"]) + 0.05 * x["b"].sum()
+
+    truth = {"a": random.normal(k2, (n,)), "b": random.normal(k4, (2,))}
+    d = fwd(truth) + 0.1 * random.normal(k3, (nd,))
+    dom = tree_map(jft.ShapeWithDtype.from_leave, truth)
+    lh = jft.Gaussian(d, noise_cov_inv=lambda x: x / 0.01).amend(fwd, domain=dom)
+    pos0 = jft.Vector(tree_map(lambda x: 0.1 * jnp.ones_like(x), truth))
+    out = {}
+    for kind, form, variants in entries:
+        res = {}
+        for lin_jit, nl_jit, rmap, jit in variants:
+            vi = jft.OptimizeVI(lh, n_total_iterations=1, jit=bool(jit), linear_minimizer_jit=bool(lin_jit),
+                                nonlinear_minimizer_jit=bool(nl_jit), residual_map=rmap)
+            cg = jft.conjugate_gradient.static_cg if (lin_jit or rmap == "smap") else jft.conjugate_gradient.cg
+            kw = {}
+            if kind == "lin":
+                cgkw, mode = dict(CG_FORMS[form]), "linear_resample"
+            else:
+                cgkw, mode = dict(CG_FORMS["absdelta"]), "nonlinear_resample"
+                mini = jft.optimize._static_newton_cg if (nl_jit or rmap == "smap") else jft.optimize._newton_cg
+                kw = dict(nonlinearly_update_kwargs=dict(minimize=mini, minimize_kwargs=dict(
+                    name=None, cg_kwargs=dict(name=None), **NL_FORMS[form])))
+            smp, _ = vi.draw_samples(jft.Samples(pos=pos0, samples=None, keys=None), key=random.PRNGKey(7),
+                                     sample_mode=mode, n_samples=2, point_estimates=(),
+                                     draw_linear_kwargs=dict(cg=cg, cg_name=None, cg_kwargs=cgkw), **kw)
+            flat = np.concatenate([np.asarray(x).ravel() for x in tree_leaves(smp._samples)])
+            res["%s/%s/%s/%s" % ("linjit" if lin_jit else "lineager", "nljit" if nl_jit else "nleager", rmap,
+                                 "jit" if jit else "nojit")] = hx(flat)
+        out["%s:%s" % (kind, form)] = res
+    return out
+
+
 def main():
     spec = json.load(open(sys.argv[1]))
     out = {}
@@ -106,6 +167,8 @@ def main():
         out["classic_vi_geovi"] = classic_vi(spec["seed"], True)
     for j, (mode, ns) in enumerate(spec.get("jax_modes", [])):
         out["jax:%s:%d" % (mode, ns)] = jax_vi(spec["seed"], mode, ns, spec["jax_configs"])
+    if spec.get("strategy") and int(sys.argv[3] if len(sys.argv) > 3 else 0) == 0:
+        out["strategy"] = jax_strategy(spec["seed"], spec["strategy"])
     json.dump(out, open(sys.argv[2], "w"))
 
 
